@@ -6,7 +6,8 @@ Driver for C05, mode `fx` (histories with failed updates; harness/cmd/hv/c05faul
   `C05 fx <queue 0|1> <n> <shard of name 0>.<shard of name 1>... <op>,<op>,... => <obs>;<obs>;...`
 
 ops at the level of ingresses: `iX.C.S.T` ingress X declared / changed (backend content cfg C = 4*conf+epv
-with S empty slots, host content T), `dX` ingress X deleted, `tV` tcp service content V, `F` full resync
+with S empty slots, host content T), `pX.C.S.T.H` ingress X declared with `ssl-passthrough: "true"` (H = 1: with
+`ssl-passthrough-http-port`; host content 8*(1+H)+T, backend in mode tcp), `dX` ingress X deleted, `tV` tcp service content V, `F` full resync
 (`config.Clear()`, everything live parsed again), `G` the same without the tcp service, `u[:fault]` the
 recorded batch is applied the way `converters.Sync` does and `HAProxyUpdate` runs with at most one fault.
 
@@ -49,12 +50,23 @@ def parseXOp (p : Nat) (s : String) : Option (XOp p) :=
     match rest.splitOn "." with
     | [x, c, sl, t] => do some (.ing (← toFin p x) { cfg := ← c.toNat?, slots := ← sl.toNat? } (← t.toNat?))
     | _ => none
+  else if s.startsWith "p" then
+    -- ssl-passthrough ingress: the backend (mode tcp, root path only: confs 2k and 2k+1 are the same object,
+    -- never ACLs) and the host (content T and H only) are contents no plain ingress has
+    match rest.splitOn "." with
+    | [x, c, sl, t, h] => do
+      let c ← c.toNat?
+      let h ← h.toNat?
+      if h > 1 then none else
+      some (.ing (← toFin p x) { cfg := 4 * (32 + 2 * (c / 8)) + c % 4, slots := ← sl.toNat? } (8 * (1 + h) + (← t.toNat?)))
+    | _ => none
   else if s.startsWith "d" then (toFin p rest).map .del
   else if s.startsWith "t" then rest.toNat?.map .tcp
   else none
 
 /-- content of host X in the model: a function of what the harness puts into the host -/
-def hostContent (t : Nat) (c : Content) : Nat := 2 * (64 * t + conf c)
+def hostContent (t : Nat) (c : Content) : Nat :=
+  if t ≥ 8 then 2 * (64 * t) else 2 * (64 * t + conf c)
 
 /-- `Shrink` never puts back a backend that needs ACLs and went through `WriteBackendMaps`:
 `backendsMatch` levels `PathsMap` but not `PathsDefaultHostMap`, which that call sets next to it, so the
@@ -197,7 +209,8 @@ def handleFx (q n shards ops : String) (impl : String) : Verdict :=
             !x.1.err && (obs.take x.2).any (·.err))
           { model := m, agree := obs.map (·.err) == flags
             oracle := if spurious then some "update-without-fault-fails" else obs.findSome? fxClause
-            trivial := !disc || !afterFault }
+            -- or a history with an ssl-passthrough host (the counter of Hosts decides what haproxy.cfg holds)
+            trivial := !disc || !(afterFault || xops.any fun | .ing _ _ t => t ≥ 8 | _ => false) }
   | _, _ => bad "args"
 
 end HapVerif.C05F
